@@ -9,7 +9,7 @@
     e <dump>                        <dump> as printed by implutil.Dump / Drv/Board.lean `dump`
                                     → `<valid><wf><oneKing> <evalInt cs b> <evalInt cs (mirror b)> | <dump of mirror b without history>`
     q <dump>                        → exact-arithmetic evaluation with the TABLE as sigmoid, white-relative,
-                                    as a reduced fraction `num/den` (used by the C19 float comparison)
+                                    as a reduced fraction `num/den`, then `noInt16Wrap cs (input b)` as 0/1
     ec                              EngineCoeffs(): the leaves of the converted shipped struct
     tv <targets> | <leaves>         ToVector of the struct with the given leaves   → the vector
     sv <targets> | <leaves> | <vec> SetVector                                      → `panic` | the leaves of the result
@@ -110,7 +110,7 @@ def step (st : DS) (line : String) : DS × String :=
   | "q" :: rest =>
     match parseDump rest with
     | none => (st, "err")
-    | some b => (st, ratStr (tunerEvalQ sigmaTable st.csQ b))
+    | some b => (st, ratStr (tunerEvalQ sigmaTable st.csQ b) ++ " " ++ bstr (noInt16Wrap st.cs (input b)))
   | ["ec"] => (st, intsStr (repLeaves (TunerVector.engineCoeffs id TunerVector.shippedRep)))
   | "tv" :: t :: "|" :: rest =>
     (st, intsStr (TunerVector.toVector (repOf (parseInts rest)) (parseTargets t)))
